@@ -25,14 +25,14 @@ ASSUMPTIONS = ["the unregister is issued after the registration's own announceme
 
 def floors(tier):
     q = tier == "quick"
-    return {"c08.goodbye_complete": 400 if q else 40000, "c08.no_resurrection": 400 if q else 40000}
+    return {"c08.goodbye_complete": 5000 if q else 600000, "c08.no_resurrection": 5000 if q else 600000}
 
 
 def plan(tier, seed):
     if tier == "quick":
-        n, per = 16, 45
+        n, per = 16, 450
     else:
-        n, per = 64, 1500
+        n, per = 64, 15000
     return [{"seed": seed, "shard": i, "per": per, "tier": tier} for i in range(n)]
 
 
